@@ -83,6 +83,7 @@ func TestC10SNISteeringFollowsTheTable(t *testing.T) {
 		}()
 		time.Sleep(100 * time.Millisecond) // the readiness probe has been dealt with
 		names := []string{"a.sni.example", "b.sni.example"}
+		routeOpts := rapid.SampledFrom([]string{"", ` opts "pxyproto=false"`, ` opts "allow=ip:0.0.0.0/0,ip:::/0"`, ` opts "proto=tcp"`, ` tags "a,b"`, ` opts "proto=tcp pxyproto=false"`}).Draw(t, "route-options")
 		has := map[string]bool{}
 		var hist []string
 		for i, n := 0, rapid.IntRange(3, 8).Draw(t, "steps"); i < n; i++ {
@@ -94,7 +95,8 @@ func TestC10SNISteeringFollowsTheTable(t *testing.T) {
 			var text strings.Builder
 			for _, nm := range names {
 				if has[nm] {
-					fmt.Fprintf(&text, "route add svc-%s %s/ tcp://%s\n", nm[:1], nm, up.Addr())
+					// (options on the route, or none: it is the tcp:// destination that makes it a tcp route)
+					fmt.Fprintf(&text, "route add svc-%s %s/ tcp://%s%s\n", nm[:1], nm, up.Addr(), routeOpts)
 				}
 			}
 			tbl, err := route.NewTable(bytes.NewBufferString(text.String()))
